@@ -46,6 +46,13 @@ func runC08(op string, in []string) string {
 				return "nil"
 			}
 			return gs(out)
+		case "cliph": // <box> <heap> <sgeom> : clip.Geometry on the caller's own memory (NOT a clone); lean/Orb/HeapOps.lean
+			box := rdBound(r)
+			arrays := rdHeap(r)
+			g := rdSGeom(r, arrays)
+			out := clip.Geometry(box, g)
+			// every backing array afterwards and, for each slice of the result, the input array it aliases (or fresh)
+			return heapString(arrays) + " " + locString(out, arrays)
 		}
 		return "badop"
 	})
@@ -143,5 +150,40 @@ func genC08(c *Ctx) {
 			continue
 		}
 		c.Case("geom", box+" "+gs(g))
+
+		// the same entry point on the caller's own memory, slices sharing backing arrays
+		hb := &heapBuilder{r: r,
+			content: func(kind string) []orb.Point {
+				switch kind {
+				case "R", "PG", "MPG":
+					return genClosedRing(c, mode)
+				}
+				// 0-d / 1-d members: vertices around the box so that lines are cut into several pieces
+				n := size(r, 6)
+				ps := make([]orb.Point, n)
+				for i := range ps {
+					ps[i] = orb.Point{r.Float64()*8 - 0.5, r.Float64()*8 - 0.5}
+					switch mode {
+					case 0:
+						ps[i] = orb.Point{math.Round(ps[i][0]), math.Round(ps[i][1])}
+					case 1:
+						ps[i] = orb.Point{math.Round(ps[i][0]*2) / 2, math.Round(ps[i][1]*2) / 2}
+					}
+				}
+				return ps
+			},
+			filler: func() orb.Point {
+				p := orb.Point{r.Float64()*8 - 0.5, r.Float64()*8 - 0.5}
+				switch mode {
+				case 0:
+					p = orb.Point{math.Round(p[0]), math.Round(p[1])}
+				case 1:
+					p = orb.Point{math.Round(p[0]*2) / 2, math.Round(p[1]*2) / 2}
+				}
+				return p
+			}}
+		c.Case("cliph", box+" "+hb.build(clipHKinds, r.Intn(4)))
 	}
 }
+
+var clipHKinds = []string{"R", "R", "PG", "PG", "PG", "MPG", "MPG", "C", "C", "C", "LS", "MLS", "MP", "P", "B"}
